@@ -155,6 +155,8 @@ func atomLiteral(v string) string {
 	switch v {
 	case "true", "false", "nil":
 		return v
+	case "FUNC:upper", "FUNC:lower":
+		return v[5:] // the built-in function itself
 	}
 	if _, err := strconv.Atoi(v); err == nil {
 		return v
@@ -172,6 +174,8 @@ func (c *concretizer) expr(e xExpr) string {
 		return "."
 	case "nilvar":
 		return "gnil"
+	case "bcall":
+		return e.A + `("AbC")`
 	case "fail":
 		return "fail()"
 	case "err":
@@ -547,6 +551,8 @@ func atomValue(v string) interface{} {
 		return false
 	case "nil":
 		return nil
+	case "FUNC:vmf", "FUNC:glf":
+		return func(s string) string { return v + "(" + s + ")" }
 	}
 	if n, err := strconv.Atoi(v); err == nil {
 		return n
